@@ -59,6 +59,7 @@ func main() {
 	out := flag.String("out", "", "output directory")
 	mode := flag.String("mode", "sched", "sched|plain")
 	hooks := flag.String("hooks", "/verif/hooks", "hook files root")
+	patch := flag.String("patch", os.Getenv("VERIF_PATCH_DIR"), "directory with replacement files (same layout as the repository) applied before instrumentation")
 	flag.Parse()
 	if *out == "" {
 		fatal("missing -out")
@@ -74,6 +75,25 @@ func main() {
 			packages.NeedTypes | packages.NeedTypesInfo | packages.NeedImports | packages.NeedDeps,
 		Dir: *repo,
 		Env: append(os.Environ(), "GOFLAGS=-mod=mod", "GOPROXY=off", "GOSUMDB=off", "CGO_ENABLED=0"),
+	}
+	if *patch != "" {
+		cfg.Overlay = map[string][]byte{}
+		err := filepath.Walk(*patch, func(path string, info os.FileInfo, err error) error {
+			if err != nil || info.IsDir() || !strings.HasSuffix(path, ".go") {
+				return err
+			}
+			rel, _ := filepath.Rel(*patch, path)
+			b, err := os.ReadFile(path)
+			if err != nil {
+				return err
+			}
+			cfg.Overlay[filepath.Join(*repo, rel)] = b
+			return nil
+		})
+		if err != nil {
+			fatal("reading patch dir: %v", err)
+		}
+		fmt.Printf("ovgen: %d patched files from %s\n", len(cfg.Overlay), *patch)
 	}
 	var pats []string
 	for _, d := range pkgDirs {
